@@ -25,7 +25,7 @@ import (
 )
 
 const rule = "fixture = an on-disk tree: public/ with files, sub-directories with and without index, a directory named like the index file, odd names (blank, '..x', '%41.txt'), and outside it secret.txt and public-evil/ - every file holds a unique marker. " +
-	"case = options (Prefix spelled ''|p|/p|/p/|p/q|/|//, custom Index, SetETag, Expires, CacheControl; Directory given or left to its default 'public' below the working directory; passed as a value or as the element of a slice that was used for another directory before) x 1..6 requests: method in {GET, HEAD, POST, PUT, ''}, path assembled from pieces {file names, directory names, '..', '.', '', NUL, backslash, prefix look-alikes such as /px, /p-evil, /p.., <prefix><name> without a slash}, optional If-None-Match (learned from a first response), Range or If-Modified-Since. " +
+	"case = options (Prefix spelled ''|p|/p|/p/|p/q|/|//, custom Index, SetETag, Expires, CacheControl; Directory given, left to its default 'public' below the working directory, or named (absolutely or relative to the working directory) through a symbolic link with a relative target while a directory of that relative name with other content exists below the working directory; passed as a value or as the element of a slice that was used for another directory before) x 1..6 requests: method in {GET, HEAD, POST, PUT, ''}, path assembled from pieces {file names, directory names, '..', '.', '', NUL, backslash, prefix look-alikes such as /px, /p-evil, /p.., <prefix><name> without a slash}, optional If-None-Match (learned from a first response), Range or If-Modified-Since, and one time in three a header a proxy may add or a client may forge (X-Forwarded-Prefix, X-Forwarded-Host, X-Original-URL, X-Sendfile, ...; 20 of them), which changes nothing. " +
 	"Oracle: an own resolver over the fixture manifest - not GET/HEAD, prefix mismatch (segment boundary), or Clean('/'+rest) neither a regular file nor a directory -> Static wrote nothing and the next handler produced the response; regular file -> 200 with exactly that file's marker (HEAD: empty body), or 304 with an empty body for a conditional request whose If-None-Match carries the ETag of an earlier response; directory without trailing slash -> 302 whose Location, resolved against the request path, is the cleaned request path plus '/' and which carries no file content (an index-less directory may also stay silent); directory with slash -> its index file if regular, else silent; never an outside marker in any response. " +
 	"non-trivial = a case with a path containing '..', a doubled slash, NUL or a backslash, a prefix look-alike, a directory, or a conditional request; distinct by case text"
 
@@ -78,6 +78,21 @@ func TestMain(m *testing.M) {
 	write("secret.txt", outside1)
 	write("public-evil/e.txt", outside2)
 	write("public-evil/index.html", outside2)
+	// a directory reached through links, as release directories are: deploy/current
+	// -> "releases/v1" (relative to deploy/) -> <root>/public; and, next to the
+	// working directory, a directory of the same relative name with other content
+	if err := os.MkdirAll(filepath.Join(root, "deploy", "releases"), 0o755); err != nil {
+		panic(err)
+	}
+	if err := os.Symlink(filepath.Join(root, "public"), filepath.Join(root, "deploy", "releases", "v1")); err != nil {
+		panic(err)
+	}
+	if err := os.Symlink(filepath.Join("releases", "v1"), filepath.Join(root, "deploy", "current")); err != nil {
+		panic(err)
+	}
+	for _, f := range []string{"a.txt", "index.html", "home.htm", "sub/b.txt", "sub/index.html", "e.txt", "only-here.txt"} {
+		write(filepath.Join("releases", "v1", f), "MARK:OUTSIDE-decoy")
+	}
 	// "public" is the default directory, relative to the working directory
 	if err := os.Chdir(root); err != nil {
 		panic(err)
@@ -96,6 +111,10 @@ type Opts struct {
 	// directory under test and the Static under test is built from the same
 	// slice; the first one is thrown away.
 	SharedSlice  bool   `json:"options_slice_reused,omitempty"`
+	// LinkDir: the directory is named through a symbolic link with a relative
+	// target ("deploy/current" -> "releases/v1" -> the directory): "abs" = by
+	// its absolute path, "rel" = relative to the working directory.
+	LinkDir      string `json:"directory_through_symlink,omitempty"`
 	Prefix       string `json:"prefix"`
 	Index        string `json:"index,omitempty"`
 	ETag         bool   `json:"etag,omitempty"`
@@ -111,7 +130,15 @@ type Req struct {
 	// "range" (bytes=2-5), "range-out" (bytes=100000-), "ims-future"
 	// (If-Modified-Since far in the future), "ims-past".
 	Hdr string `json:"hdr,omitempty"`
+	// Proxy: a header a proxy in front may add (or a client may forge),
+	// "Name: value"; nothing of what Static does depends on it.
+	Proxy string `json:"proxy_header,omitempty"`
 }
+
+var proxyHeaders = []string{"X-Forwarded-Prefix: /app", "X-Forwarded-Prefix: //evil.example", "X-Forwarded-Prefix: https://evil.example/", "X-Forwarded-Host: evil.example",
+	"X-Forwarded-Proto: https", "X-Forwarded-For: 10.0.0.1", "Forwarded: for=10.0.0.1;host=evil.example;proto=https", "X-Original-URL: /secret.txt", "X-Rewrite-URL: /../secret.txt",
+	"X-Forwarded-Uri: /public-evil/e.txt", "X-Script-Name: /app", "X-Accel-Redirect: /secret.txt", "X-Sendfile: ../secret.txt", "X-Http-Method-Override: GET", "X-Real-Ip: 10.0.0.1",
+	"Accept-Encoding: gzip, br", "Referer: http://evil.example/x/", "Origin: http://evil.example", "Destination: /secret.txt", "Accept: text/html"}
 
 type Case struct {
 	Opts Opts  `json:"opts"`
@@ -216,6 +243,13 @@ func checkCase(c Case) (out evid.Outcome) {
 	}
 	if c.Opts.DefaultDir {
 		so.Directory = ""
+	} else if c.Opts.LinkDir == "abs" {
+		so.Directory = filepath.Join(fixtureRoot, "deploy", "current")
+	} else if c.Opts.LinkDir == "rel" {
+		so.Directory = filepath.Join("deploy", "current")
+	}
+	if c.Opts.LinkDir != "" && !c.Opts.DefaultDir {
+		out.Classes = append(out.Classes, "directory-through-symlink")
 	}
 	if c.Opts.SharedSlice {
 		list := []flamego.StaticOptions{so}
@@ -269,6 +303,11 @@ func checkCase(c Case) (out evid.Outcome) {
 			hdr.Set("If-Modified-Since", "Fri, 01 Jan 2100 00:00:00 GMT")
 		case "ims-past":
 			hdr.Set("If-Modified-Since", "Thu, 01 Jan 1970 00:00:01 GMT")
+		}
+		if q.Proxy != "" {
+			kv := strings.SplitN(q.Proxy, ": ", 2)
+			hdr.Set(kv[0], kv[1])
+			out.Classes = append(out.Classes, "proxy-header")
 		}
 		spy := serve(q.M, p, hdr)
 		body := string(spy.Body)
@@ -496,6 +535,7 @@ func genCase(t *rapid.T) Case {
 		CacheControl: rapid.Bool().Draw(t, "cc"),
 		DefaultDir:   rapid.IntRange(0, 4).Draw(t, "defaultdir") == 0,
 		SharedSlice:  rapid.IntRange(0, 4).Draw(t, "sharedslice") == 0,
+		LinkDir:      []string{"", "", "", "abs", "rel"}[rapid.IntRange(0, 4).Draw(t, "linkdir")],
 	}
 	pre := ""
 	if strings.Trim(c.Opts.Prefix, "/") != "" {
@@ -517,6 +557,9 @@ func genCase(t *rapid.T) Case {
 			INM: []string{"", "", "", "match", "nomatch"}[rapid.IntRange(0, 4).Draw(t, "inm")],
 			Hdr: []string{"", "", "", "", "", "range", "range-out", "ims-future", "ims-past"}[rapid.IntRange(0, 8).Draw(t, "hdr")],
 		})
+		if rapid.IntRange(0, 2).Draw(t, "proxy") == 0 {
+			c.Reqs[len(c.Reqs)-1].Proxy = proxyHeaders[rapid.IntRange(0, len(proxyHeaders)-1).Draw(t, "proxyhdr")]
+		}
 	}
 	return c
 }
